@@ -384,6 +384,12 @@ def core_bookkeeping(rep: Report):
             self.check_update(fr, xm)
 
         @staticmethod
+        def update_ok(V, xm):
+            h = cur().ghost["head"]
+            return all(isinstance(x, tm.TArr) and x.node[0] == "add" and x.node[2] == h["x0"][i].node and isinstance(x.node[1], tuple) and x.node[1][0] == "times"
+                       and x.node[1][1] == i and all(isinstance(v, tm.TArr) for v in V) and x.node[1][2] == tuple(v.node for v in V) for i, x in enumerate(xm))
+
+        @staticmethod
         def check_update(fr, xm):
             c = cur()
             h = c.ghost["head"]
@@ -431,11 +437,16 @@ def core_bookkeeping(rep: Report):
             goodl = isinstance(last, list) and len(last) == 3
             out.append(("last_history_entry_is_returned_res", goodl and req(last[2], res)))
             out.append(("iter_is_last_cycle", goodl and SBool.mk(SInt.lift(it) == SInt.lift(last[0]))))
-            if ctx.ghost.get("phase") == "generic":
-                Restart.check_update(ctx.ghost["loop_frame"], xm) if ctx.ghost.get("loop_frame") else None
+            head = ctx.ghost.get("head")
+            untouched = head is not None and all(isinstance(x, tm.TArr) and x.node == head["x0"][i].node for i, x in enumerate(xm))
+            if not untouched:       # (untouched: the loop ran to completion and the state is the invariant's own iterate)
+                # the cycle that stopped (tolerance reached, cap exceeded or breakdown): its iterate is still x0 + V y
+                out.append(("stopping_cycle_iterate_is_x0_plus_Vy", Restart.update_ok(list(val[5:9]), xm)))
+            else:
+                out.append(("stopping_cycle_iterate_is_x0_plus_Vy", True))
             return out
         cl = ["no_exception", "returns_eleven_values", "zero_rhs_returns_x_zero", "zero_rhs_residual_zero_no_cycles", "res_is_residual_of_returned_x",
-              "last_history_entry_is_returned_res", "iter_is_last_cycle"]
+              "last_history_entry_is_returned_res", "iter_is_last_cycle", "stopping_cycle_iterate_is_x0_plus_Vy"]
         lib = tm.install(Library("idx"))
         run_case(rep, P, QN, f"bookkeeping.cap_{cap}", setup, post, lib=lib, contracts=contracts,
                  loop_rules={(QN, 0): Restart(), (QN, 1): Arnoldi()}, clauses=cl, replay=replay_solve, timeout_s=30, max_paths=800)
@@ -631,6 +642,11 @@ def bounded(rep: Report, tier, seed):
                             return {"what": "solution depends on scaling / preconditioning", "scale": c, "preconditioner": prec, "relative_error": err}
                 return None
             b2.case(f"{P}.bounded.scaling", (n, kind), f, f"scaling / preconditioner independence n={n} {kind}", inputs={"A": A4, "b": b4})
+            # loose tolerances on down-/up-scaled systems: the stopping rule is relative, so flag soundness and truthfulness
+            # must not depend on the scale (||cb|| may be far below tol)
+            for c_, tol_ in ((1e-6, 1e-2), (1e-6, 1e-5), (1e-3, 1e-2), (1e6, 1e-2)):
+                b2.case(f"{P}.bounded.scaled_loose_tol", (n, kind, c_, tol_), lambda A4=A4, b4=b4, c_=c_, tol_=tol_: check_solve(c_ * A4, c_ * b4, tol_, None, "none", False),
+                        f"n={n} {kind} scaled by {c_:g}, tol {tol_:g}", inputs={"A": c_ * A4, "b": c_ * b4, "tol": tol_})
     b2.samples.append({"n": 4, "class": "generic", "scales": [1e-6, 1e6]})
     b2.done()
 
